@@ -46,7 +46,10 @@ CLAIMS = {
         'JSON text (inductive grammar Spec/JsonGrammar.v), and with the trailing option a JSON value followed by anything; the scanner '
         'never panics and never fails with an internal code, every error is 301/303 at an index inside the text. Proof by residual '
         'languages: one closure lemma per abstract state and byte class, byte classes checked over all 256 bytes by computation. '
-        'The converse (every RFC 8259 text is accepted) is not yet a theorem: it rests on the correspondence (model = implementation on '
+        'The converse is a theorem too (C12_complete, C12_iff: accepted exactly the RFC 8259 texts): the abstract states form a '
+        'deterministic pushdown automaton that the model simulates step by step and that runs through every word of the grammar; with '
+        'the trailing option every value followed by anything is accepted unless the continuation extends a number (maximal munch, '
+        'corner shown by witness). The lexeme-stream clauses rest on the correspondence (model = implementation on '
         'all strings of up to 5 tokens over a 28-symbol alphabet, documents, truncations, mutations) and on the independent decoder '
         '(python json, strict) that judges validity, the tree rebuilt from the lexeme stream, span containment and Len on every case.',
    note='Trusted: Coq kernel incl. vm_compute (byte-class table); hand-written model tied by correspondence; extraction, driver, harness '
